@@ -6,7 +6,6 @@ package drivers
 // result goes to an NDJSON trace that TLC validates against TraceLifecycle.tla.
 
 import (
-	"strings"
 	"encoding/json"
 	"errors"
 	"fmt"
@@ -16,6 +15,7 @@ import (
 	"path/filepath"
 	"runtime"
 	"strconv"
+	"strings"
 	"sync"
 	"testing"
 	"time"
@@ -91,12 +91,12 @@ func (fp *fakePlugin) die() {
 }
 
 type lcCase struct {
-	Name       string   `json:"name"`
-	Plan       string   `json:"plan"`
-	Calls      []string `json:"calls"`
-	Concurrent bool     `json:"concurrent"` // run the calls from two goroutines (alternating assignment)
-	LineDelay  int      `json:"line_delay_ms"`
-	LineVariant int     `json:"line_variant"` // which rejected line plan "badline" prints
+	Name        string   `json:"name"`
+	Plan        string   `json:"plan"`
+	Calls       []string `json:"calls"`
+	Concurrent  bool     `json:"concurrent"` // run the calls from two goroutines (alternating assignment)
+	LineDelay   int      `json:"line_delay_ms"`
+	LineVariant int      `json:"line_variant"` // which rejected line plan "badline" prints
 }
 
 func runLifecycleCase(c lcCase, tmp string) []map[string]interface{} {
